@@ -185,6 +185,8 @@ def getattr_lib(M, interp, obj, name, node):
         raise AbsRaise(ExcVal('AttributeError', (f"'bytes' object has no attribute '{name}'",)), node)
     if isinstance(obj, FB):
         raise AbsRaise(ExcVal('AttributeError', (f"bool has no attribute '{name}'",)), node)
+    if isinstance(obj, slice) and name in ('start', 'stop', 'step'):
+        return getattr(obj, name)
     raise AnalysisError(f'attribute {name} of {type(obj).__name__} not modelled', node, where=_where(interp, node))
 
 
@@ -1232,6 +1234,15 @@ def register(M):
             raise AnalysisError('concatenate of non-arrays', node)
         els = [e for v in vs for e in v.els()]
         return vs[0].like(els)
+
+    def _hstack(interp, args, kw, node):
+        # library fact: hstack passes its parts through atleast_1d, so plain numbers are one-element arrays (concatenate itself refuses 0-d parts)
+        parts = args[0] if len(args) == 1 else args
+        parts = list(interp.iterate(parts, node)) if not isinstance(parts, (list, tuple)) else list(parts)
+        parts = [Vec.fresh([El(X.num(p), False)], kind='nd', dtype='i8' if isinstance(p, int) else 'f8') if isinstance(p, (int, Fr)) and not isinstance(p, bool) else p
+                 for p in parts]
+        return _concat(interp, [parts], kw, node)
+    E['numpy.hstack'] = _hstack
 
     @ext('numpy.ma.concatenate', 'numpy.ma.hstack')
     def _ma_concat(interp, args, kw, node):
